@@ -6,8 +6,13 @@ from concurrent.futures import ThreadPoolExecutor
 HERE = os.path.dirname(os.path.abspath(__file__)); VERIF = os.path.dirname(HERE)
 PROPS = os.environ['MATRIX_PROPS'].split(',') if os.environ.get('MATRIX_PROPS') else [f'C{i:02d}' for i in range(1, 21)]      # MATRIX_PROPS=C06,C07 restricts the checks run
 
+import queue
+TARGETS = queue.Queue()
+
+
 def run(patch):
     d = tempfile.mkdtemp(prefix='vcm.', dir='/tmp')
+    tgt = TARGETS.get()
     try:
         subprocess.run(['rsync', '-a', '--exclude', 'target', '--exclude', '.git', '/repo/', d + '/repo/'], check=True)
         subprocess.run(['git', 'init', '-q', '.'], cwd=d + '/repo', stdout=subprocess.DEVNULL, stderr=subprocess.DEVNULL)
@@ -16,13 +21,14 @@ def run(patch):
             return patch, {'error': p.stderr[-200:]}
         out = {}
         for c in PROPS:
-            env = dict(os.environ, VERIF_REPO=d + '/repo', VERIF_EVIDENCE_DIR=d + '/evidence', VERIF_FAST='1')
+            env = dict(os.environ, VERIF_REPO=d + '/repo', VERIF_EVIDENCE_DIR=d + '/evidence', VERIF_FAST='1', VERIF_TARGET_DIR=tgt)
             r = subprocess.run([os.path.join(VERIF, 'check'), c], cwd=VERIF, env=env, capture_output=True, text=True)
             v = [l.strip() for l in r.stdout.splitlines() if l.startswith('  [')]
             if r.returncode == 1 and v:
                 out[c] = [x[:300] for x in v[:3]]
         return patch, out
     finally:
+        TARGETS.put(tgt)
         shutil.rmtree(d, ignore_errors=True)
 
 def main():
@@ -46,7 +52,19 @@ def main():
     if '--resume' in sys.argv:
         done = set(res)
         patches = [p for p in patches if (os.path.relpath(p, VERIF) if p.startswith(VERIF) else p) not in done]
-    with ThreadPoolExecutor(max_workers=int(os.environ.get('MATRIX_WORKERS', '4'))) as ex:
+    nw = int(os.environ.get('MATRIX_WORKERS', '4'))
+    shared = os.path.join(VERIF, '.cache', 'target-shared')
+    for i in range(nw):
+        # one build directory per worker (a copy of the shared one with the dependencies already built): the fact builds of different trees run side by side
+        t = f'/tmp/vtgt.{os.getpid()}.{i}'
+        if os.path.isdir(shared):
+            subprocess.run(['cp', '-a', shared, t], check=False)
+        else:
+            os.makedirs(t, exist_ok=True)
+        TARGETS.put(t)
+    import atexit
+    atexit.register(lambda: [shutil.rmtree(f'/tmp/vtgt.{os.getpid()}.{i}', ignore_errors=True) for i in range(nw)])
+    with ThreadPoolExecutor(max_workers=nw) as ex:
         for patch, out in ex.map(run, patches):
             key = os.path.relpath(patch, VERIF) if patch.startswith(VERIF) else patch
             res[key] = out
